@@ -160,6 +160,11 @@ var c02fresh = []string{
 	`(begin (defn cnt [] (len (append [] 1))) (list (cnt) (cnt) (cnt)))`,
 	`(map (fn [x] (aset [0 0] 0 x)) [1 2])`,
 	`(begin (def out []) (for [(def i 0) (< i 3) (set i (+ i 1))] (let [cell ["a" "b"]] (aset cell 0 i) (set out (append out cell)))) out)`,
+	// self-calls of variadic functions with no, one and several rest arguments, in tail and in operand position
+	`(begin (def cnt 2) (defn drain [& xs] (cond (== cnt 0) (len xs) (begin (set cnt (- cnt 1)) (drain)))) (list (drain 7 8 9) (begin (set cnt 2) (+ 100 (drain 7 8 9)))))`,
+	`(begin (def cnt 3) (defn grow [a & xs] (cond (== cnt 0) (list a xs) (begin (set cnt (- cnt 1)) (grow (+ a 1) a cnt)))) (grow 0))`,
+	`(begin (def cnt 2) (defn nul [& xs] (cond (== cnt 0) (list (len xs) 5) (begin (set cnt (- cnt 1)) (nul)))) (list 1 (nul 4 4) 2))`,
+	`(begin (def cnt 2) (defn one [a & xs] (cond (== cnt 0) (list a (len xs)) (begin (set cnt (- cnt 1)) (one 9)))) [(one 1 2 3) (begin (set cnt 1) (one 5 6))])`,
 }
 
 func init() {
@@ -168,7 +173,7 @@ func init() {
 		Level: "exploration",
 		Rule: "programs of the core language enumerated from one-/two-/three-hole contexts (control forms, calls, data operations) over a leaf pool " +
 			"(traced host calls with unique ids, variables, literals, a failing host call, an unbound name): all depth-1 trees in all 6 layout styles, all context chains of length 2 " +
-			"(thorough: length 3 over the control contexts, full depth-2 trees over a reduced set), plus 13 programs in which a literal or constructor call is evaluated repeatedly and one result is then mutated; each program is evaluated on a fresh interpreter and by the reference evaluator R1; " +
+			"(thorough: length 3 over the control contexts, full depth-2 trees over a reduced set), plus 13 programs in which a literal or constructor call is evaluated repeatedly and one result is then mutated and 4 programs with self-calls of variadic functions passing no / some rest arguments; each program is evaluated on a fresh interpreter and by the reference evaluator R1; " +
 			"value, error class and host-call trace are compared; distinct_nontrivial = distinct (shape, outcome, trace) triples among programs that make a host call or raise an error",
 		Assumptions: []string{
 			"R1 (internal/ref/r1.go) is the specification: textbook lexical scopes, left-to-right single evaluation after the callee, short-circuit forms return the last arm evaluated",
